@@ -20,7 +20,7 @@ ASSUMPTIONS = ['counts and HL/LX numbers that Python int() accepts but are not c
                'every ISA generated has 16 elements (a shorter ISA is a documented refusal, C07)']
 REQUIRED_COUNTERS = ['proper', 'improper', 'exp:isa:025', 'exp:gs:6', 'exp:st:23', 'exp:st:3', 'exp:st:4', 'exp:gs:4', 'exp:gs:5', 'exp:isa:001',
                      'exp:isa:021', 'exp:eof:st:2', 'exp:eof:gs:3', 'exp:eof:isa:023', 'exp:seg:HL1', 'exp:seg:HL2', 'exp:seg:LX',
-                     'proper-clean', 'segments-fed', 'envelope-soups', 'headers-without-control-number', 'sets-with-unclosed-LS', 'interchanges-of-other-parties']
+                     'proper-clean', 'segments-fed', 'envelope-soups', 'headers-without-control-number', 'sets-with-unclosed-LS', 'interchanges-of-other-parties', 'mutations:later-interchange-without-ISA-and-IEA']
 MIN_CASES = {'quick': 15000, 'thorough': 2000000}
 
 CTL = {'isa': ['000000001', '000000002', '000000003'], 'gs': ['1', '2', '3'], 'st': ['0001', '0002', '0003']}
@@ -130,9 +130,24 @@ def mutate(rng, segs):
         env_idx = [i for i, s in enumerate(segs) if s[0] in ENV and i > 0]
         if not env_idx:
             break
-        k = rng.choice(['delete', 'dup', 'swap', 'orphan', 'retag', 'move'])
+        k = rng.choice(['delete', 'dup', 'swap', 'orphan', 'retag', 'move', 'unwrap'])
         i = rng.choice(env_idx)
-        if k == 'delete':
+        if k == 'unwrap':
+            # a later interchange loses its ISA and its IEA (and, half of the time, the GS / GE inside): groups or sets that stand in no
+            # interchange at all, each still closed by its own trailer
+            later = [j for j, s_ in enumerate(segs) if s_[0] == 'ISA' and j > 0]
+            if not later:
+                continue
+            a = rng.choice(later)
+            b = next((j for j in range(a + 1, len(segs)) if segs[j][0] in ('IEA', 'ISA')), None)
+            if b is None or segs[b][0] != 'IEA':
+                continue
+            drop = {a, b}
+            if rng.random() < 0.5:
+                drop |= {j for j in range(a, b) if segs[j][0] in ('GS', 'GE')}
+            segs = [s_ for j, s_ in enumerate(segs) if j not in drop]
+            ctx_count('mutations:later-interchange-without-ISA-and-IEA')
+        elif k == 'delete':
             del segs[i]
         elif k == 'dup':
             segs.insert(i, segs[i])
